@@ -64,6 +64,7 @@ package cmdapi
 //@   ensures same-transaction: !tx.dryRun && err == nil && gvcModeOf(tx, f) != txModeNone ==>
 //@           d == tx.tx.Driver && rrw == tx.txrrw && gvcClientOf(rrw) == tx.tx.Client
 //@   ensures failure-begins-at-most-one: err != nil ==> GvcTxBegun <= old(GvcTxBegun)+1
+//@   ensures open-tx-wellformed: err == nil && tx.tx != nil ==> tx.tx.Client != nil && tx.txrrw != nil && gvcClientOf(tx.txrrw) == tx.tx.Client
 //@ spec func gvcModeOf(t *tx, f migrate.File) string { m, _ := t.modeFor(f); return m }
 
 //@ func (tx *tx) mayRollback(e error) (err error)
@@ -83,8 +84,12 @@ package cmdapi
 //@   requires tx != nil
 //@   modifies tx.tx, tx.txrrw, GvcCommits, GvcTxOpen
 //@   ensures per-file-transaction-is-committed: old(tx.tx) != nil && !tx.dryRun && tx.mode != txModeAll ==> GvcCommits == old(GvcCommits)+1 && tx.tx == nil
-//@   ensures spanning-transaction-stays-open: tx.mode == txModeAll || tx.dryRun ==> tx.tx == old(tx.tx) && GvcCommits == old(GvcCommits)
+//@   ensures spanning-transaction-stays-open: tx.mode == txModeAll || tx.dryRun ==> tx.tx == old(tx.tx) && tx.txrrw == old(tx.txrrw) && GvcCommits == old(GvcCommits)
 //@   ensures nothing-open-nothing-done: old(tx.tx) == nil ==> tx.tx == nil && GvcCommits == old(GvcCommits) && err == nil
+
+//@ func (e *Env) openClient(ctx context.Context, u string) (c *sqlclient.Client, err error)
+//@   trusted
+//@   ensures err == nil ==> c != nil
 
 // The apply loop: a transaction is open at the head of an iteration only when one transaction
 // spans all files; execution stops at the first error; the spanning transaction is committed
@@ -92,7 +97,8 @@ package cmdapi
 //@ func migrateApplyRun(cmd *cobra.Command, args []string, flags migrateApplyFlags, env *Env, mr *MigrateReport) (err error)
 //@   requires cmd != nil && env != nil && mr != nil && migrate.GvcExec.N >= 0
 //@   modifies everything
-//@   loop 1 invariant mux.tx != nil ==> mux.mode == txModeAll && mux.tx.Client != nil && mux.txrrw != nil && gvcClientOf(mux.txrrw) == mux.tx.Client
+//@   loop 1 invariant open-tx-spans-all-files: mux.tx != nil ==> mux.mode == txModeAll
+//@   loop 1 invariant open-tx-wellformed: mux.tx != nil ==> mux.tx.Client != nil && mux.txrrw != nil && gvcClientOf(mux.txrrw) == mux.tx.Client
 //@   loop 1 invariant mux.c != nil && err == nil && dir != nil && migrate.GvcExec.N >= 0
 //@   loop 1 invariant (forall i int :: 0 <= i && i < len(pending) ==> pending[i] != nil)
 //@   loop 1 invariant mux.dryRun ==> mux.tx == nil
